@@ -74,6 +74,14 @@ func (u *unaryNegation) Next(ctx context.Context) ([]model.StepVector, error) {
 	default:
 	}
 
+	// The workers are started when the series are loaded, which a consumer
+	// is not obliged to ask for before the first batch.
+	var err error
+	u.once.Do(func() { err = u.loadSeries(ctx) })
+	if err != nil {
+		return nil, err
+	}
+
 	in, err := u.next.Next(ctx)
 	if err != nil {
 		return nil, err
